@@ -40,6 +40,17 @@ class LocalizedError(TypedDict):
     err: ErrorMsg
 
 
+def _child_order(key: Any) -> Tuple[int, Any]:
+    # keys are normally indices or property names, but deserialized data can be a dict
+    # with arbitrary (mixed) keys, which must not prevent errors from being listed
+    if isinstance(key, int):
+        return 0, key
+    elif isinstance(key, str):
+        return 1, key
+    else:
+        return 2, repr(key)
+
+
 class ValidationError(Exception):
     @overload
     def __init__(self, __message: str):
@@ -69,7 +80,7 @@ class ValidationError(Exception):
     def _errors(self) -> Iterator[Tuple[List[ErrorKey], ErrorMsg]]:
         for msg in self.messages:
             yield [], msg
-        for child_key in sorted(self.children):
+        for child_key in sorted(self.children, key=_child_order):
             for path, error in self.children[child_key]._errors():
                 yield [child_key, *path], error
 
